@@ -769,6 +769,12 @@ def affine_in(t, x):
     if t[0] == "un" and t[1] == "Neg":
         l = affine_in(t[2], x)
         return None if l is None else (-l[0], -l[1])
+    if t[0] == "call" and len(t) == 5 and t[1].rsplit("::", 1)[-1] == "midpoint" and len(t[3]) == 2 and ("f64" in t[1] or "f32" in t[1] or "num::" in t[1]):
+        # f64::midpoint(a, b) = (a + b) / 2 (evaluated as exactly that expression unless an operand is near the overflow threshold)
+        l, r = affine_in(t[3][0], x), affine_in(t[3][1], x)
+        if l is None or r is None:
+            return None
+        return ((l[0] + r[0]) / 2, (l[1] + r[1]) / 2)
     return None
 
 
@@ -829,6 +835,9 @@ def rule_band(F, ev, R, config, rule="R-BAND"):
             v = evb.ret_val(Env(cb))
             me1 = ("param", cb.key, 1)
             okc = v == me1 or (v[0] == "cast" and v[1] == "FloatToFloat" and v[2] == me1 and v[3] == "f64")
+            if not okc and v[0] == "call" and v[1] in ("std::convert::Into::into", "std::convert::From::from") and v[3] == (me1,) \
+                    and cb.j.get("inputs") == ["f32"] and cb.j.get("output") == "f64":
+                okc = True    # std's `impl From<f32> for f64`: the lossless conversion
             R.add(rule, config, cb.key, "into_f64-is-the-exact-widening", okc, "" if okc else "into_f64 computes `%s`" % short(v)[:80], cb.j["span"])
     for k, v in have.items():
         R.add(rule, config, b.key, "continues-only-if:p " + k, v, "" if v else "the quantile is computed without requiring probability %s" % k, pt.get("span"))
